@@ -326,8 +326,14 @@ func CheckMain(id, tier string, seed int64, only string, shardsOverride int) int
 	exit := 0
 	confirmed := 0
 	repDir := filepath.Join(VerifDir(), "replays", id)
-	for _, k := range newKeys {
+	const maxConfirm = 12
+	for ki, k := range newKeys {
 		v := newByKey[k]
+		if ki >= maxConfirm && confirmed > 0 {
+			// enough confirmed violations to fail the run; the remaining keys are listed, not replayed
+			fmt.Printf("violation (not replayed, %d keys beyond the first %d): property=%s key=%s %s\n", len(newKeys)-maxConfirm, maxConfirm, v.Property, v.Key, firstN(v.What, 200))
+			continue
+		}
 		os.MkdirAll(repDir, 0o755)
 		vb, _ := json.MarshalIndent(v, "", " ")
 		path := filepath.Join(repDir, ShortHash([]byte(v.Key))+".json")
@@ -512,4 +518,11 @@ func (t *tailWriter) Write(p []byte) (int, error) {
 		t.buf.Write(nb)
 	}
 	return len(p), nil
+}
+
+func firstN(s string, n int) string {
+	if len(s) <= n {
+		return s
+	}
+	return s[:n] + "…"
 }
